@@ -1,6 +1,7 @@
 import LyModel.Diff.Lemmas13Merge
 import LyModel.Diff.LemmasRevLit
 import LyModel.Diff.LemmasCancel
+import LyModel.Diff.LemmasMergeEmpty
 /-!
 # C13 — the 4 × 4 operation table of `lyd_diff_merge_*`, cell by cell, against the composition of the two applications
 
@@ -330,7 +331,25 @@ example : ∃ R, reverse mcS (diff mcS true mcA mcB) = .ok R ∧
     mergeDiff { defaults := true } mcS (diff mcS true mcA mcB) R = .ok [] :=
   merge_cancel_diff (by decide +kernel) (by decide +kernel)
 
-/-! ## two families of triples for which the tree-level law `merge_apply` is proved -/
+/-! ## three families of triples for which the tree-level law `merge_apply` is proved -/
+
+/-- `A → A → C` (the first diff is empty — how a caller starts accumulating diffs, `lyd_diff_merge_all(&diff, D)` with
+`diff == NULL`): the merged diff is `D = diff(A, C)` with every top-level `yang:operation` re-written at the end of the
+metadata (`cop`), in the same order (the diff is ordered by schema node: `Diff.diff_sorted`; nothing is redundant:
+`Diff.diff_top_nonredundant`), and `mergeApply` gives `C`.  No hypothesis on the `sort` callbacks beyond C06's. -/
+theorem merge_apply_first_empty (S : Schema) (o : MergeOpts) (fx : Fixes) (A C : List DNode) (hA : wfForest S A = true)
+    (hC : wfForest S C = true) (hk : KeysDistinguished S (A ++ C)) :
+    mergeDiff o S (diff S true A A) (diff S true A C) = .ok ((diff S true A C).map cop) ∧
+      ∃ C', mergeApply S true o A A C fx = .ok C' ∧ dataEqL true C' C = true := by
+  obtain ⟨C', h1, _, h3, _⟩ := Diff.diff_chain_exact S fx A C C hA hC hC hk
+  have hself : diff S true A A = [] := by
+    have := diffFull_self S true A hA
+    simp [diff, this]
+  obtain ⟨hm, ha⟩ := merge_into_empty S o fx A C hA hC
+  rw [hself]
+  refine ⟨hm, C', ?_, (dataEqL_iff_norm C' C).mpr h3⟩
+  simp [mergeApply, hself, hm, Except.bind, applyD, ha, h1]
+
 
 /-- `A → B → B` (the second diff is empty): `mergeApply` gives `B` -/
 theorem merge_apply_second_empty (S : Schema) (o : MergeOpts) (fx : Fixes) (A B : List DNode) (hA : wfForest S A = true)
@@ -360,13 +379,17 @@ theorem merge_apply_reverse {S : Schema} {o : MergeOpts} {fx : Fixes} (K : KeyOr
   rw [dataEqL_iff_norm]
   exact h4.symm
 
+example : ∃ C', mergeApply mcS true { defaults := true } mcA mcA mcB = .ok C' ∧ dataEqL true C' mcB = true :=
+  (merge_apply_first_empty mcS _ {} mcA mcB (by decide +kernel) (by decide +kernel)
+    (keysDistinguished_of_check _ _ (by decide +kernel))).2
+
 example : ∃ C', mergeApply mcS true {} mcA mcB mcB = .ok C' ∧ dataEqL true C' mcB = true :=
   merge_apply_second_empty mcS {} {} mcA mcB (by decide +kernel) (by decide +kernel)
     (keysDistinguished_of_check _ _ (by decide +kernel))
 
 -- OPEN: `merge_apply_partial` — for good trees and exact diffs `D1` (for `A`, leading to `B`) and `D2` (for `B`, leading to `C`):
 --   ∃ M C', mergeDiff o S D1 D2 = .ok M ∧ apply S A M fx = .ok C' ∧ dataEqL true C' C = true.
---   (`merge_cancel` at tree level is proved: above.)
+--   (`merge_cancel` at tree level and the triples `A → A → C`, `A → B → B`, `A → B → A` are proved: above.)
 --   Hypotheses the tree statement needs, cell by cell (read off the leaf-cell theorems above): (delete, create) —
 --   `o.defaults = true → Generated.Diff13.mergeDfltNeedsDeletedDflt = true` (finding F18(b)); (none, replace) — the value the
 --   second diff sets is not default-flagged (`hnd` of `merge_cell_none_replace`: true for validated data, where a leaf that carries
